@@ -24,3 +24,29 @@ package xstar
 //@   loop 1 complete
 //@   at call:Free#1 assert len(old(m.Header)) != 4
 //@   at select#1 assert len(old(m.Header)) == 4
+// ---- generated option contracts (tools/gen_option_contracts.py) ----
+//@ func (*socket).SetOption
+//@   ensures name != protocol.OptionTTL && name != protocol.OptionRecvDeadline && name != protocol.OptionWriteQLen && name != protocol.OptionReadQLen ==> result == protocol.ErrBadOption
+//@   ensures name == protocol.OptionTTL ==> (isnil(result) <==> is_int(value) && 1 <= int_of(value) && int_of(value) <= 255)
+//@   ensures name == protocol.OptionTTL && !isnil(result) ==> result == protocol.ErrBadValue
+//@   ensures name == protocol.OptionTTL && isnil(result) ==> s.ttl == int_of(value)
+//@   ensures name == protocol.OptionRecvDeadline ==> (isnil(result) <==> is_duration(value))
+//@   ensures name == protocol.OptionRecvDeadline && !isnil(result) ==> result == protocol.ErrBadValue
+//@   ensures name == protocol.OptionRecvDeadline && isnil(result) ==> s.recvExpire == int_of(value)
+//@   ensures name == protocol.OptionWriteQLen ==> (isnil(result) <==> is_int(value) && 0 <= int_of(value))
+//@   ensures name == protocol.OptionWriteQLen && !isnil(result) ==> result == protocol.ErrBadValue
+//@   ensures name == protocol.OptionWriteQLen && isnil(result) ==> s.sendQLen == int_of(value)
+//@   ensures name == protocol.OptionReadQLen ==> (isnil(result) <==> is_int(value) && 0 <= int_of(value))
+//@   ensures name == protocol.OptionReadQLen && !isnil(result) ==> result == protocol.ErrBadValue
+//@   ensures name == protocol.OptionReadQLen && isnil(result) ==> s.recvQLen == int_of(value)
+//@   ensures !isnil(result) ==> unchanged(s.recvExpire, s.recvQLen, s.sendQLen, s.ttl)
+//@
+//@ func (*socket).GetOption
+//@   ensures option != protocol.OptionTTL && option != protocol.OptionRecvDeadline && option != protocol.OptionWriteQLen && option != protocol.OptionReadQLen && option != protocol.OptionRaw ==> result1 == protocol.ErrBadOption && isnil(result0)
+//@   ensures option == protocol.OptionTTL ==> isnil(result1) && result0 == iface(s.ttl)
+//@   ensures option == protocol.OptionRecvDeadline ==> isnil(result1) && result0 == iface(s.recvExpire)
+//@   ensures option == protocol.OptionWriteQLen ==> isnil(result1) && result0 == iface(s.sendQLen)
+//@   ensures option == protocol.OptionReadQLen ==> isnil(result1) && result0 == iface(s.recvQLen)
+//@   ensures option == protocol.OptionRaw ==> isnil(result1) && result0 == iface(true)
+//@
+// ---- end generated option contracts ----
